@@ -1,4 +1,5 @@
 """C10 MTBDD arithmetic — terminal/base cases of every operator (E-TABLE) ..."""
+import substrate
 import edm
 import elin
 import ector
@@ -81,4 +82,5 @@ def run(ctx):
                 "edges: it compares and hashes all key parts, and every entry is cleared (under its lock) in pre_gc / before a "
                 "reordering, so that no entry survives the collection of one of its nodes and is served for a recycled id.")
     edm.run(ctx, F)
+    substrate.run(ctx, F, dm=False)
     ctx.not_decided = "non-overflow arithmetic of the terminal types, Div rounding, float behaviour"
